@@ -203,6 +203,11 @@ class Plugin:
             # D4 (fixed)
             {"steps": [["EListenerSrch", b("HTTP/1.1 200 OK", [["CACHE-CONTROL", "max-age=" + "9" * 20], ["LOCATION", "http://10.0.0.7/x"], ["ST", "a"], ["USN", "uuid:x"]]), a4, 0],
                        ["EListenerAdv", b("NOTIFY * HTTP/1.1", [["CACHE-CONTROL", "max-age=99999999999"], ["LOCATION", "http://10.0.0.7/x"], ["NT", "a"], ["NTS", "ssdp:alive"], ["USN", "uuid:y"]]), a4, 1]]},
+            # a device known from two locations; the shorter-lived one is dropped by the lazy purge of a later sighting
+            {"steps": [["EListenerSrch", b("HTTP/1.1 200 OK", [["CACHE-CONTROL", "max-age=5"], ["LOCATION", "http://192.168.1.10:80/desc.xml"], ["ST", "upnp:rootdevice"], ["USN", "uuid:Dev-1::upnp:rootdevice"]]), a4, 0],
+                       ["EListenerSrch", b("HTTP/1.1 200 OK", [["CACHE-CONTROL", "max-age=1800"], ["LOCATION", "http://192.168.1.77/new.xml"], ["ST", "upnp:rootdevice"], ["USN", "uuid:Dev-1::upnp:rootdevice"]]), a4, 1],
+                       ["EListenerAdv", b("NOTIFY * HTTP/1.1", [["CACHE-CONTROL", "max-age=1800"], ["LOCATION", "http://192.168.1.77/new.xml"], ["NT", "upnp:rootdevice"], ["NTS", "ssdp:alive"], ["USN", "uuid:Dev-1::upnp:rootdevice"]]), a4, 10],
+                       ["EListenerSrch", b("HTTP/1.1 200 OK", [["CACHE-CONTROL", "max-age=1800"], ["LOCATION", "http://192.168.1.10:80/desc.xml"], ["ST", "upnp:rootdevice"], ["USN", "uuid:Dev-1::upnp:rootdevice"]]), a4, 11]]},
             # D5, D6 (fixed)
             {"steps": [["EServer", b("M-SEARCH * HTTP/1.1", [["MAN", '"ssdp:discover"'], ["MX", "-1"], ["ST", "ssdp:all"]]), a4, 0],
                        ["EServer", b("M-SEARCH * HTTP/1.1", [["MAN", '"ssdp:discover"'], ["MX", "2"], ["ST", "ssdp:all"]]), a4, 0],
@@ -324,6 +329,29 @@ class Plugin:
             steps.append([ep, data, a if rng.random() < 0.8 else rng.choice(ADDRS), t])
         return {"steps": steps}
 
+    def _moving_device_case(self, rng, n):
+        """One device announced from two locations with different lifetimes, then more traffic after the shorter one has
+        run out: the lazy purge has to drop one location of a device that stays known (while it walks the locations)."""
+        a = rng.choice(ADDRS)
+        u = "uuid:Dev-" + str(rng.randint(1, 3))
+        ty = rng.choice(["upnp:rootdevice", u, "urn:schemas-upnp-org:device:Basic:1"])
+        usn = u if ty == u else u + "::" + ty
+        locs = rng.sample(["http://192.168.1.10:80/desc.xml", "http://192.168.1.77/new.xml", "http://[fe80::2]:8080/d.xml", "http://10.0.0.7/x"], 3)
+
+        def sighting(loc, age):
+            if rng.random() < 0.5:
+                return "EListenerSrch", ("HTTP/1.1 200 OK", [["CACHE-CONTROL", f"max-age={age}"], ["EXT", ""], ["LOCATION", loc], ["ST", ty], ["USN", usn]])
+            return "EListenerAdv", ("NOTIFY * HTTP/1.1", [["HOST", "239.255.255.250:1900"], ["CACHE-CONTROL", f"max-age={age}"], ["LOCATION", loc],
+                                                          ["NT", ty], ["NTS", rng.choice(["ssdp:alive", "ssdp:update"])], ["USN", usn]])
+        t, steps = 0, []
+        for i in range(max(3, n)):
+            loc = locs[0] if i == 0 else locs[1] if i == 1 else rng.choice(locs)
+            age = rng.choice([1, 5]) if i == 0 else rng.choice([1800, 1800, 5, 30])
+            ep, (start, hs) = sighting(loc, age)
+            steps.append([ep, list(self._build(start, hs)), a, t])
+            t += rng.choice([0, 1, 3, 10, 10, 40, 2000]) if i else rng.choice([0, 1, 3])
+        return {"steps": steps}
+
     def _server_case(self, rng, n):
         """M-SEARCH datagrams for the search responder: every kind of ST (well formed, foreign, version tokens that are
         no version numbers) and MX, with and without MAN - "anything else is dropped" and "a dropped datagram sends nothing"."""
@@ -346,8 +374,10 @@ class Plugin:
         r = rng.random()
         if r < 0.2:
             return self._server_case(rng, n)
-        if r < 0.55:
+        if r < 0.5:
             return self._known_device_case(rng, n)
+        if r < 0.6:
+            return self._moving_device_case(rng, n)
         steps = []
         t = 0
         for _ in range(n):
